@@ -182,7 +182,12 @@ func verifyFunc(prog *Prog, sp *FuncSpec) (res *FuncResult) {
 	if sp.Untrusted {
 		fv.setupAllocBudget()
 	}
-	end := fv.execBlock(fd.decl.Body.List, st)
+	body := fd.decl.Body.List
+	if from := strings.TrimSpace(sp.Pragmas["from"]); from != "" {
+		body = fv.startFrom(fd, from, st)
+		fv.entry = st.clone()
+	}
+	end := fv.execBlock(body, st)
 	if end != nil && !endsInTerminatingLoop(fd.decl.Body) {
 		fv.finishReturn(end, fd.decl.End())
 	}
@@ -299,6 +304,58 @@ func (fv *FuncVerifier) assumeLemma(st *State, name string) {
 	st.assume(mk(sortBool, "(forall (%s) %s)", strings.Join(binders, " "), implies(and(hyp...), and(concl...)).S))
 	fv.u.note("lemma %s assumed for all parameter values (proved separately: obligation %s#lemma:*)", name, shortName(lsp.Key))
 	fv.contractUsed[lsp.Key] = true
+}
+
+// startFrom (pragma from <anchor>): the function is verified from the top-level statement that
+// contains the anchor text, for an arbitrary state there: every local declared before it (and
+// every named result) is an arbitrary well-typed value, the heap is the arbitrary initial heap, and
+// the contract's `requires` (already assumed) describe that state; old() refers to it. The
+// statements before the anchor are not executed and not covered (reported as an assumption).
+func (fv *FuncVerifier) startFrom(fd *funcDecl, anchor string, st *State) []ast.Stmt {
+	a := findAnchorStmt(fv.prog.fset, fd.decl, anchor)
+	if a == nil {
+		reject("pragma from: anchor %q not found in %s", anchor, fv.name)
+	}
+	idx := -1
+	for i, s := range fd.decl.Body.List {
+		if s.Pos() <= a.Pos() && a.End() <= s.End() {
+			idx = i
+		}
+	}
+	if idx < 0 {
+		reject("pragma from: anchor %q is not inside a top-level statement", anchor)
+	}
+	start := fd.decl.Body.List[idx].Pos()
+	info := fd.pkg.TypesInfo
+	var objs []*types.Var
+	for id, obj := range info.Defs {
+		v, ok := obj.(*types.Var)
+		if !ok || v.IsField() || id.Pos() < fd.decl.Body.Pos() || id.Pos() >= start {
+			continue
+		}
+		if v.Parent() == nil || !v.Parent().Contains(start) {
+			continue
+		}
+		objs = append(objs, v)
+	}
+	sig := fd.fn.Type().(*types.Signature)
+	for i := 0; i < sig.Results().Len(); i++ {
+		if r := sig.Results().At(i); r.Name() != "" && r.Name() != "_" {
+			objs = append(objs, r)
+		}
+	}
+	sort.Slice(objs, func(i, j int) bool { return objs[i].Pos() < objs[j].Pos() })
+	for _, v := range objs {
+		s := fv.sortOf(v.Type())
+		if s == nil {
+			continue
+		}
+		t := fv.u.freshConst(v.Name(), s)
+		st.vars[v] = t
+		fv.assumeTyped(st, t, v.Type())
+	}
+	fv.u.note("pragma from: verified from `%s` on, for arbitrary values of the locals declared before it; the statements before it are not covered", anchor)
+	return fd.decl.Body.List[idx:]
 }
 
 func (fv *FuncVerifier) setupAllocBudget() {
